@@ -24,6 +24,7 @@ Inductive expr :=
 | ETuple (l : list expr)
 | EDict (l : list (option expr * expr))
 | EIfExp (c a b : expr)
+| EListComp (elt target iter : expr) (conds : list expr)    (* [elt for target in iter if c1 if c2 ...] *)
 | EUnsupported (s : string).
 
 Inductive stmt :=
